@@ -85,13 +85,13 @@ def main(tier: str, seed: int) -> int:
     else:
         scopes = [
             dict(kinds=K, frozen=['none', 'part', 'all'], max_leaves=2,
-                 max_depth=2, patterns=trees.PATTERNS, max_pat=2, share=True),
-            dict(kinds=['linear', 'conv', 'linsub', 'bn'],
-                 frozen=['none', 'part'], max_leaves=3, max_depth=2,
-                 patterns=trees.PATTERNS[:7], max_pat=1, share=True),
+                 max_depth=2, patterns=trees.PATTERNS, max_pat=1, share=True),
+            dict(kinds=['linear', 'conv', 'bn'], frozen=['none', 'part'],
+                 max_leaves=3, max_depth=2, patterns=trees.PATTERNS[:7],
+                 max_pat=2, share=True, simulate=4000),
             dict(kinds=K, frozen=['none', 'part', 'all'], max_leaves=5,
                  max_depth=3, patterns=trees.PATTERNS, max_pat=3, share=True,
-                 simulate=40000),
+                 simulate=1500),
         ]
     with ThreadPoolExecutor(max_workers=3) as ex:
         runs = list(ex.map(lambda s: trees.gen_trees(seed=seed, **s), scopes))
